@@ -125,7 +125,10 @@ class SelectDelayer(harness.GateController):
                     fields = {}
                 rq = fields.get('rq', 0)
                 self.count += 1
-                delay = self.rnd.choice([0, 0, self.rnd.random() * self.max_ms / 1000.0])
+                if getattr(self, 'delay_fn', None):
+                    delay = self.delay_fn(fields)
+                else:
+                    delay = self.rnd.choice([0, 0, self.rnd.random() * self.max_ms / 1000.0])
 
                 def ack(pid=pid, rq=rq):
                     tmpf = os.path.join(self.dir, 'tmp.%d.%d' % (pid, rq))
